@@ -4,7 +4,7 @@ import io
 from lib import S, observe_call
 import copybook_gen as G
 
-GEN = []
+GEN = ["StructureParams", "RefFormatParams"]
 RULE = ("random well-formed forests (1-3 records, depth <= 5, non-contiguous and ragged level numbers, groups, elementary items, "
         "OCCURS fixed/DEPENDING ON on both, REDEFINES of earlier siblings, FILLER/unnamed, 88 VALUE, 66 RENAMES, 77) printed as "
         "reference-format text with random spelling (sequence numbers, comment and blank lines, PIC/PICTURE IS, TIMES, USAGE IS, "
@@ -12,7 +12,9 @@ RULE = ("random well-formed forests (1-3 records, depth <= 5, non-contiguous and
         "colliding names, random REDEFINES targets; forests in which data names are repeated under different parents (cousin groups, "
         "elementary items) with REDEFINES inside the later groups, and forests reusing ancestor/sibling names; "
         "first entry 66/77/88; one stream per known defect trigger (for finding 5: clean forests in which one to three elementary "
-        "items or 88 levels carry a VALUE literal with a period followed by a blank). "
+        "items or 88 levels carry a VALUE literal with a period followed by a blank; for finding 6: clean forests with contiguous or "
+        "ragged levels in which all or a random half of the level numbers below 10 are printed with one digit; for finding 7: clean "
+        "forests with REDEFINES in which the target of a REDEFINES clause, or the declaration it names, is respelled in lower or mixed case). "
         "Non-trivial = more than one entry; distinct = distinct case lines.")
 TRIVIAL_BRANCHES = [0, 10]
 ASSUMPTIONS = [
@@ -30,18 +32,20 @@ def opt(x):
     return [] if x is None else [S(x)]
 
 
-def intended_entry(n, toks):
+def intended_entry(n, toks, one_digit=False):
     return [f"{n['level']:02d}", n["name"], "FILLER" if (n["name"] is None and n["filler"]) else None, n["redefines"],
             int(n["pic"] is not None), int(n["occurs"] is not None or n["odo"] is not None), " ".join(toks),
-            int(bool(n["indexed_by"])), n["value"]]
+            int(bool(n["indexed_by"])), n["value"], int(bool(one_digit and n["level"] < 10))]
 
 
-def make_case(rng, forest, spelled=True, level_text=None, **popts):
+def make_case(rng, forest, spelled=True, level_text=None, one_digit_ids=(), **popts):
     toks = {}
     for n in G.entries(forest):
         toks[id(n)] = G.entry_tokens(n, rng if spelled else None)
+    if one_digit_ids:
+        popts = dict(popts, one_digit=lambda n: id(n) in one_digit_ids)
     text = G.print_copybook(forest, rng=rng if spelled else None, tokens=lambda n: toks[id(n)], **popts)
-    ents = [intended_entry(n, toks[id(n)]) for n in G.entries(forest)]
+    ents = [intended_entry(n, toks[id(n)], id(n) in one_digit_ids) for n in G.entries(forest)]
     return {"text": text, "entries": ents}
 
 
@@ -228,6 +232,43 @@ def inputs(ctx):
             n["value"] = rng.choice(PERIOD_WS_VALUES)
         yield "known5_value_period_ws", make_case(rng, f, **spelling(rng))
 
+    # ---- known finding 6: level numbers 1-9 written with one digit (the entry is not seen; digits further on start garbage)
+    w = [G.node(1, "R", children=[G.node(5, "A", pic="X"), G.node(10, "B", pic="X")])]
+    yield "known6_one_digit_level", make_case(rng, w, spelled=False, indent=3,
+                                              one_digit_ids={id(n) for n in G.entries(w) if n["level"] < 10})
+    for i in range(80 * scale):
+        f = G.gen_forest(rng, max_depth=rng.choice([2, 3, 4]), budget=rng.choice([6, 15, 30]), contiguous=rng.random() < 0.6,
+                         p_redefines=rng.choice([0, 0.15]))
+        low = [n for n in G.entries(f) if n["level"] < 10]
+        every = rng.random() < 0.4
+        ids = {id(n) for n in low if every or rng.random() < 0.5}
+        if not ids:
+            ids = {id(low[0])}            # a record's 01 level is always there
+        yield "known6_one_digit_level", make_case(rng, f, one_digit_ids=ids, **spelling(rng))
+
+    # ---- known finding 7: a REDEFINES target spelled in another letter case than the declaration
+    def recase(name):
+        return rng.choice([x for x in (name.lower(), name.capitalize(), name[:-1].lower() + name[-1:], name[:1] + name[1:].lower())
+                           if x != name])
+
+    yield "known7_redefines_case", make_case(rng, [G.node(1, "R", children=[
+        G.node(5, "fld-a", pic="X"), G.node(5, "B", pic="X", redefines="FLD-A")])], spelled=False)
+    for i in range(60 * scale):
+        f = G.gen_forest(rng, max_depth=rng.choice([2, 3, 4]), max_children=rng.choice([3, 5, 7]), budget=rng.choice([10, 20, 40]),
+                         p_redefines=rng.choice([0.4, 0.6]), p_occurs=0.1)
+        ents = G.entries(f)
+        reds = [n for n in ents if n["redefines"]]
+        if not reds:
+            continue
+        for n in rng.sample(reds, min(len(reds), rng.randint(1, 2))):
+            if rng.random() < 0.6:
+                n["redefines"] = recase(n["redefines"])                    # the clause respelled
+            else:
+                for b in ents:                                             # the declaration respelled
+                    if b["name"] == n["redefines"]:
+                        b["name"] = b["name"].lower()
+        yield "known7_redefines_case", make_case(rng, f, **spelling(rng))
+
 
 def canon_schema(s):
     """generic serialisation of a schema dict: kind by the keys present, ordered properties"""
@@ -256,8 +297,8 @@ def canon_schema(s):
 def observe(ctx, inp):
     from stingray import cobol_parser as cp
     text = inp["text"]
-    intended = [[S(e[0]), opt(e[1]), opt(e[2]), opt(e[3]), e[4], e[5], S(e[6]), e[7], opt(e[8] if len(e) > 8 else None)]
-                for e in inp["entries"]]
+    intended = [[S(e[0]), opt(e[1]), opt(e[2]), opt(e[3]), e[4], e[5], S(e[6]), e[7], opt(e[8] if len(e) > 8 else None),
+                 e[9] if len(e) > 9 else 0] for e in inp["entries"]]
 
     def sentences():
         out = []
@@ -278,8 +319,12 @@ def observe(ctx, inp):
     def schemas():
         return [canon_schema(s) for s in cp.schema_iter(io.StringIO(text))]
 
+    def raw():
+        return [[S(lvl), S(" ".join(src.split()))] for lvl, src in cp.dde_sentences(cp.reference_format(io.StringIO(text)))]
+
     ident = lambda v: v
-    return [S(text), intended, observe_call(sentences, ident), observe_call(forest, ident), observe_call(schemas, ident)]
+    return [S(text), intended, observe_call(sentences, ident), observe_call(forest, ident), observe_call(schemas, ident),
+            observe_call(raw, ident)]
 
 
 def describe(inp):
